@@ -7,7 +7,7 @@
    rules; the C12 invariants are evaluated as step post-conditions (Judge = TRUE).  With
    Judge = FALSE only conformance is checked (used to validate the rest of a trace after a
    finding).  Events:
-     Start  op L R nx           exchange() entered (op "apdu" | "ping"); nx = first block type
+     Start  op L R sa nx        exchange() entered (op "apdu" | "ping"; sa: through send_apdu()); nx = first block type
      Send   b tmo pni           clf.exchange(data, timeout) called
      ToCard f rep ex nx         fate to the card, the card's reply (NONE = mute), executed APDU id
                                 (0 none, -1 unknown command); nx = what the PCD does next if it
@@ -38,7 +38,7 @@ IsEv(a) == l <= Len(T) /\ Ev.e = a /\ l' = l + 1 /\ UNCHANGED tid
 NxOf(p) == IF Active(p) THEN p.out.t ELSE p.ph
 MkB(r) == Blk(r.t, r.bn, r.ch, r.a, r.k, r.len)
 
-GStart == IsEv("Start") /\ StartOp(Ev.op, Ev.L, Ev.R) /\ (Ev.op = "ping" => Ev.L = 0 /\ Ev.R = 0)
+GStart == IsEv("Start") /\ StartOp(Ev.op, Ev.L, Ev.R, Ev.sa) /\ (Ev.op = "ping" => Ev.L = 0 /\ Ev.R = 0)
 GSend  == IsEv("Send") /\ Send
 GToCard == IsEv("ToCard") /\ ToCard(Ev.f)
 GToPcd == IsEv("ToPcd") /\ ToPcd(Ev.f)
